@@ -489,12 +489,9 @@ Definition k_chown (follow : bool) (s : fsys) (sv : sview) (p : str) (uid gid : 
           let u := v_user v in
           let nuid := if Z.eqb uid (-1) then m_uid m else uid in
           let ngid := if Z.eqb gid (-1) then m_gid m else gid in
-          let ok := us_admin u
-                    || (Z.eqb uid (-1) && Z.eqb gid (-1))
-                    || (Z.eqb (m_uid m) (us_uid u)
-                        && (Z.eqb uid (-1) || Z.eqb uid (m_uid m))
-                        && (Z.eqb gid (-1) || Z.eqb gid (us_gid u))) in
-          if negb ok then (s, SErr EPERM)
+          (* chown_ok / chgrp_ok: [chown_ok] of MemFS.v (the repaired implementation has the same rule); the owner may
+             also "change" the group to the one the object has *)
+          if negb (chown_ok m u uid gid) then (s, SErr EPERM)
           else
             let isdir := match n with NDir _ _ => true | _ => false end in
             (* chown_common: ATTR_KILL_SUID | setattr_should_drop_sgid for everything but a directory *)
